@@ -120,8 +120,9 @@ mod vf_kani_c03_options {
             if ne > 0 && use_union { Some(exc_union) } else { None },
             &req,
         );
-        // reference: the base options hold, and - when the initiator is known - some initiator
-        // (sub)domain hash is listed if a positive list exists, and none is excluded.
+        // reference (from the statement: a rule applies only if every option on it is satisfied): the base options hold, some
+        // initiator (sub)domain hash is listed if a positive list exists - an unknown initiator is in no listed domain - and
+        // none is excluded (an unknown initiator is in no excluded domain either).
         let base = ref_options_nodomain(bits, &RequestType::Image, false, true, third);
         let mut inc_ok = true;
         let mut exc_ok = true;
@@ -131,6 +132,8 @@ mod vf_kani_c03_options {
                 inc_ok = (ns > 0 && listed(&ia, ni, sa[0])) || (ns > 1 && listed(&ia, ni, sa[1]));
             }
             exc_ok = !((ns > 0 && listed(&ea, ne, sa[0])) || (ns > 1 && listed(&ea, ne, sa[1])));
+        } else if ni > 0 {
+            inc_ok = false;
         }
         let want = base && inc_ok && exc_ok;
         assert!(got == want, "C03.options.domains: src={:?} known={has_src} include={inc:?} exclude={exc:?} union={use_union}: got {got}, reference {want}", &sa[..ns]);
